@@ -43,7 +43,7 @@ static struct {
 } vf_mm;
 
 /* edge coverage of the reference automata: (dfa, state, class) */
-static unsigned char *vf_edge_seen; static long vf_edges_total, vf_edges_seen_n, vf_states_total;
+static unsigned char *vf_edge_seen; static long vf_edges_total, vf_edges_live, vf_edges_seen_n, vf_states_total;
 static int *vf_dfa_edge_base;
 
 static void vf_hard_error(const char *why)
@@ -126,9 +126,9 @@ static void vf_mark_edges(void)
 	for (i = 0; i < avail; i++) {
 		int c = vf_cls[s[i]];
 		long e = vf_dfa_edge_base[di] + (long)q * VF_NCLS + c;
-		if (!vf_edge_seen[e]) { vf_edge_seen[e] = 1; vf_edges_seen_n++; }
 		q = d->tr[q * VF_NCLS + c];
-		if (q < 0) break;
+		if (q < 0) break;       /* only live edges are counted; jams are the default-rule path */
+		if (!vf_edge_seen[e]) { vf_edge_seen[e] = 1; vf_edges_seen_n++; }
 	}
 }
 
@@ -297,6 +297,7 @@ int main(int argc, char **argv)
 		vf_dfa_edge_base[i] = (int)vf_edges_total;
 		vf_edges_total += (long)vf_dfas[i].nst * VF_NCLS;
 		vf_states_total += vf_dfas[i].nst;
+		{ long e; for (e = 0; e < (long)vf_dfas[i].nst * VF_NCLS; e++) if (vf_dfas[i].tr[e] >= 0) vf_edges_live++; }
 	}
 	vf_edge_seen = (unsigned char *)calloc((size_t)vf_edges_total + 1, 1);
 	for (i = 0; i < VF_NKINDS; i++) vf_budget[i] = VF_BUDGET_DEFAULT;
@@ -315,7 +316,7 @@ int main(int argc, char **argv)
 		"\"fatals\":%ld,\"horizons\":%ld,\"nontrivial\":%ld,\"reads\":%ld,\"eof_actions\":%ld,"
 		"\"ref_states\":%ld,\"ref_edges\":%ld,\"ref_edges_walked\":%ld,\"choice_points\":%ld,\"overflow\":%d}\n",
 		ng, vf_n_inputs, vf_executions, vf_n_tokens, vf_n_mismatch, vf_n_fatal, vf_n_horizon, vf_n_nontrivial,
-		vf_n_reads, vf_n_eof, vf_states_total, vf_edges_total, vf_edges_seen_n, vf_choice_points, vf_overflow);
+		vf_n_reads, vf_n_eof, vf_states_total, vf_edges_live, vf_edges_seen_n, vf_choice_points, vf_overflow);
 	fclose(vf_out);
 	return 0;
 }
